@@ -1,5 +1,6 @@
 import CpModel.Proto
 import CpModel.SessionLock
+import CpModel.SessionReq
 /-!
   Driver for C13.  One case per line.
 
@@ -73,9 +74,63 @@ def stepRam (args : List String) : String :=
     | _, _, _, _, _ => "bad-op"
   | _ => "bad-op"
 
+/-! ### request-level plans
+
+    req <mode> <file> <acts|-> <out> <stream> <gen> <genTouch> <genRaise> <consume> <saveFails>
+        <oerOut> <brb> <bh> <bf> <eer>
+    hooks = - | prio:failsafe:out,…     -> `J=H:<locked>:<held>,B:…,E:… HELD=<sum over ids>` -/
+open CpModel.SessionReq in
+def parseOut (s : String) : Option Out :=
+  if s == "ok" then some .ok else if s == "http" then some .http
+  else if s == "redirect" then some .redirect else if s == "exc" then some .exc else none
+
+open CpModel.SessionReq in
+def parseMode (s : String) : Option Mode :=
+  if s == "implicit" then some .implicit else if s == "early" then some .early
+  else if s == "explicit" then some .explicit else none
+
+open CpModel.SessionReq in
+def parseAct (s : String) : Option Act :=
+  if s == "touch" then some .touch else if s == "acquire" then some .acquire
+  else if s == "release" then some .release else if s == "regen" then some .regen else none
+
+def parseBool (s : String) : Option Bool :=
+  if s == "1" then some true else if s == "0" then some false else none
+
+open CpModel.SessionReq in
+def parseHooks (s : String) : Option (List Hook) :=
+  if s == "-" then some [] else
+  (s.splitOn ",").mapM fun t =>
+    match t.splitOn ":" with
+    | [p, f, o] => do pure { prio := ← p.toNat?, failsafe := ← parseBool f, act := .user, out := ← parseOut o }
+    | _ => none
+
+open CpModel.SessionReq in
+def stepReqLine (args : List String) : String :=
+  match args with
+  | [mode, file, acts, out, stream, gen, genTouch, genRaise, consume, saveFails, oer, brb, bh, bf, eer] =>
+    let plan? : Option Plan := do
+      pure { mode := ← parseMode mode, file := ← parseBool file,
+             acts := ← (if acts == "-" then some [] else (acts.splitOn ",").mapM parseAct),
+             out := ← parseOut out, stream := ← parseBool stream, gen := ← parseBool gen,
+             genTouch := ← parseBool genTouch, genRaise := ← parseBool genRaise,
+             consume := ← (if consume == "full" then some Consume.full
+                           else if consume == "abandon" then some Consume.abandon else none),
+             saveFails := ← parseBool saveFails, oerOut := ← parseOut oer,
+             brb := ← parseHooks brb, bh := ← parseHooks bh, bf := ← parseHooks bf, eer := ← parseHooks eer }
+    match plan? with
+    | none => "bad-op"
+    | some p =>
+      let s := runRequest p
+      let j := s.journal.map fun (c, l, h) => s!"{c}:{if l then 1 else 0}:{h}"
+      let total := ((List.range (s.cur + 1)).map s.held).foldl (· + ·) 0
+      s!"J={joinOr j} HELD={total}"
+  | _ => "bad-op"
+
 def step (line : String) : String :=
   match Proto.fields line with
   | "ram" :: args => stepRam args
+  | "req" :: args => stepReqLine args
   | _ => "bad-op"
 
 end Drv.C13
